@@ -392,3 +392,14 @@ def sample_parent_pieces():
 
 S2["root_pieces"] = root_pieces
 S2["sample_parent_pieces"] = sample_parent_pieces
+
+
+def missing_sample():
+    """sample 3 is isolated (missing) on [0,4): trees with 3 and with 4 samples, one root each."""
+    return _ts(10, [(1, 0)] * 4 + [(0, 1), (0, 2), (0, 3)],
+               [(0, 10, 4, 0), (0, 10, 4, 1), (0, 10, 5, 4), (0, 10, 5, 2),
+                (4, 10, 6, 5), (4, 10, 6, 3)],
+               [2, 7], [(0, 4), (1, 3)])
+
+
+S2["missing_sample"] = missing_sample
